@@ -921,6 +921,9 @@ func (c *Float32Converter) To(obj Object) (interface{}, error) {
 	case *Int:
 		return float32(obj.value), nil
 	case *Float:
+		if !math.IsInf(obj.value, 0) && math.Abs(obj.value) > math.MaxFloat32 {
+			return nil, errz.TypeErrorf("type error: %v is out of range for float32", obj.value)
+		}
 		return float32(obj.value), nil
 	default:
 		return nil, errz.TypeErrorf("type error: expected float (%s given)", obj.Type())
